@@ -55,6 +55,18 @@ class Emitter:
         self({"k": "set", "name": name, "v": str(value)})
 
     def inconclusive(self, why: str) -> None:
+        try:
+            from vmon.instr import engine
+
+            slow = engine.LAST.get("slow")
+            engine.LAST["slow"] = False
+        except Exception:
+            slow = False
+        if slow:
+            # the watchdog ended a run that was still making progress: slow, not stuck - not judged, and counted
+            self.count("slow_runs_not_judged")
+            self({"k": "slow", "why": why})
+            return
         self({"k": "inconclusive", "why": why})
 
     def close(self) -> None:
